@@ -59,6 +59,10 @@ type Cfg struct {
 	Restarts int      `json:"restarts"` // 0/1: one restart; n: shut down and started again n times
 	Retry2   []string `json:"retry2"`   // messages whose SECOND attempt fails temporarily as well
 	Scale    int      `json:"scale"`    // retry_time_scale (0 = 1): attempt n+1 is due RetryDelay*Scale^(n-1) after attempt n
+	// wheelobs_test.go: retry_time_scale as the rational Snum/Sden (overrides Scale), how many attempts fail
+	Snum     int `json:"snum"`
+	Sden     int `json:"sden"`
+	FailUpTo int `json:"failUpTo"` // attempts 2..FailUpTo of the Retry2 messages fail temporarily (0 = 2)
 }
 
 type Behaviour struct {
@@ -105,6 +109,9 @@ type run struct {
 	attempted map[string]bool         // messages attempted by the running incarnation
 	saved     map[string][2][]byte    // message -> its .meta / .body as they were when Commit returned
 	stop      func() bool             // the clock stands still while this holds (next shutdown is due)
+	// wheelobs_test.go
+	qs       []*queue.Queue  // every incarnation of the queue, in order
+	seenSlot map[string]bool // wheel entries already logged
 }
 
 func (r *run) now() int { return int(time.Since(r.t0) / tickDur) }
@@ -161,11 +168,9 @@ func (r *run) attempt(e string) string {
 		res = "panic"
 	} else if first && r.retry[e] {
 		res = "temp"
-	} else if n == 2 && r.retry2[msgOf(e)] {
+	} else if n >= 2 && n <= r.b.Cfg.failUpTo() && r.retry2[msgOf(e)] {
 		res = "temp" // the retry delay grows: RetryDelay * Scale^(n-1) after the n-th failed attempt
-		if r.b.Cfg.Scale > 1 {
-			delay *= r.b.Cfg.Scale
-		}
+		delay = r.b.Cfg.retryDelay(n)
 	}
 	if r.attempted != nil {
 		r.attempted[msgOf(e)] = true
@@ -262,13 +267,22 @@ func (r *run) restoreHeaders() {
 
 func (r *run) newQueue() (*queue.Queue, error) {
 	c := r.b.Cfg
-	return queue.VerifNewQueue(queue.VerifConfig{
+	// (VerifNewQueue = VerifPrepare + VerifStart; the handle is needed while the start-up scan still runs)
+	q, err := queue.VerifPrepare(queue.VerifConfig{
 		Location: r.dir, Target: target{r}, MaxTries: 5, MaxParallelism: c.Par,
-		InitialRetryTime: time.Duration(c.RetryDelay) * tickDur, RetryTimeScale: float64(max(c.Scale, 1)),
+		InitialRetryTime: time.Duration(c.RetryDelay) * tickDur, RetryTimeScale: c.scaleF(),
 		PostInitDelay: time.Duration(c.Pid) * tickDur,
 		Hostname:      "mx.example.org", AutogenMsgDomain: "example.org",
 		Log: log.Logger{Out: log.NopOutput{}},
 	})
+	if err != nil {
+		return nil, err
+	}
+	r.track(q)
+	if err := q.VerifStart(c.Par); err != nil {
+		return nil, err
+	}
+	return q, nil
 }
 
 // restart: a new Queue on the same spool directory (readDiskQueue re-schedules
@@ -282,6 +296,7 @@ func (r *run) restart() {
 	n := max(r.b.Cfg.Restarts, 1)
 	for k := 1; k <= n; k++ {
 		left := r.plant()
+		r.pollWheel()
 		r.tr.Emit("Restart", vtrace.Ev{"now": r.now(), "pid": r.b.Cfg.Pid, "left": left})
 		r.nextName = fmt.Sprintf("tick%d", k+1)
 		r.attempted = map[string]bool{}
@@ -492,7 +507,12 @@ func (r *run) selOrder(g *vsched.G, n int) []int {
 
 func (r *run) cap() int {
 	c := r.b.Cfg
-	return 2*c.MaxTime + c.RetryDelay*(1+max(c.Scale, 1)) + 2 + (c.Downtime+c.Pid+1)*max(c.Restarts, 1)
+	sn, sd := c.scaleQ()
+	d := 0 // every delay that can be waited for, with the factor rounded up (a tree that does not truncate it)
+	for n := 1; n <= c.failUpTo(); n++ {
+		d += c.RetryDelay * ((ipow(sn, n-1) + ipow(sd, n-1) - 1) / ipow(sd, n-1))
+	}
+	return 2*c.MaxTime + d + 2 + (c.Downtime+c.Pid+1)*max(c.Restarts, 1)
 }
 
 // clockOK: the clock runs freely up to MaxTime; beyond it only while nothing
@@ -524,6 +544,7 @@ func (r *run) clockOK(runnable int) bool {
 func (r *run) clock() {
 	r.s.Sleep(tickDur)
 	r.tr.Emit("Clock", vtrace.Ev{"now": r.now()})
+	r.pollWheel()
 }
 
 func (r *run) find(name string) *vsched.G {
@@ -585,8 +606,11 @@ func (r *run) stepG(g *vsched.G) bool {
 	default:
 		k, n = "a", g.Name
 	}
+	r.pollWheel()
 	r.tr.Emit("Step", vtrace.Ev{"k": k, "n": n, "at": g.Kind()})
-	return r.s.Step(g)
+	ok := r.s.Step(g)
+	r.pollWheel()
+	return ok
 }
 
 func key(t task) int {
@@ -670,11 +694,13 @@ func runBehaviour(t *testing.T, b Behaviour, w *bufio.Writer) {
 		r := &run{t: t, b: b, dir: dir, t0: time.Now(), rng: rand.New(rand.NewSource(b.Seed)), maxStep: 2000}
 		r.tr = vtrace.New(w, b.ID)
 		c := b.Cfg
+		sn, sd := c.scaleQ()
 		r.tr.Emit("Cfg", vtrace.Ev{"mode": c.Mode, "due": c.Due, "close": c.Close, "retry": append([]string{}, c.Retry...),
 			"par": c.Par, "maxTime": c.MaxTime, "retryDelay": c.RetryDelay, "restart": c.Restart,
 			"hdr": append([]string{}, c.Hdr...), "panic": append([]string{}, c.Panic...), "pid": c.Pid,
 			"downtime": c.Downtime, "left": append([]string{}, c.Left...), "restarts": c.Restarts,
-			"retry2": append([]string{}, c.Retry2...), "scale": max(c.Scale, 1), "rd": c.RetryDelay})
+			"retry2": append([]string{}, c.Retry2...), "scale": max(c.Scale, 1), "rd": c.RetryDelay,
+			"snum": sn, "sden": sd, "failUpTo": c.failUpTo()})
 		r.setup()
 		r.loop()
 		r.s.Settle()
@@ -692,6 +718,7 @@ func runBehaviour(t *testing.T, b Behaviour, w *bufio.Writer) {
 		}
 		sort.Strings(hung)
 		pe, br := r.listing()
+		r.pollWheel()
 		r.tr.Emit("End", vtrace.Ev{"hung": hung, "now": r.now(), "pending": pe, "broken": br,
 			"steps": r.steps, "state": append([]string{}, r.s.Describe()...), "budget": r.steps >= r.maxStep})
 		if stuck := r.s.Shutdown(); len(stuck) > 0 {
